@@ -13,7 +13,9 @@ RULE = ("history cases (op c13.hist, 7 templates): scripts on live OrdinalInstan
         "first, then the profile under test, then the first again; instances filled through the public API with "
         "recompute_cardinality_param / flatten_strict / full_profile / vote_map / infer_type in between (their results "
         "poisoned in place); instance.orders order decoupled from the key order of instance.multiplicity, "
-        "alternatives_name in shuffled order, numpy.int64 ids; every call is judged against the mirror for the "
+        "alternatives_name in shuffled order, numpy.int64 ids; strict complete content under every data_type label "
+        "soc / soi / toc / toi (set by hand on the instance, or declared to OrdinalInstance.parse_str as file extension, "
+        "DATA TYPE header and argument): the answer must not depend on the label; every call is judged against the mirror for the "
         "profile as it should be at that point, the returned tree through c13.check, and common.snapshot before / "
         "after every call must agree. single-call cases: alternative ids are non-negative integers; every range below exists with ids 1..m and with the 0-based ids "
         "0..m-1, about half of the random id pools contain 0 and the planted trees are relabelled so that 0 is an "
@@ -261,7 +263,7 @@ def generate(tier, seed):
         out.append(_planted(rng, m, n, rng.randint(1, 2), op="c13.witness", big=1))
     # histories on live objects (purity, aliasing of the returned list, object lifetime, storage order, numpy ids,
     # maintenance API in the middle)
-    nhist = 1400 if tier == "quick" else 12000
+    nhist = 1600 if tier == "quick" else 12000
     for i in range(nhist):
         hc = _hist_case(rng, i)
         if _hist_valid(hc["payload"]):
@@ -277,7 +279,11 @@ def generate(tier, seed):
 # payload = [step, ...]; steps (nested ints only):
 #   [0, alts, [[order, mult], ...], flags]  new instance by direct field assignment; flags: 1 = reverse instance.orders
 #                                            in place, 2 = rotate the key order of instance.multiplicity,
-#                                            4 = ids are numpy.int64;   the new instance becomes the current one
+#                                            4 = ids are numpy.int64, (flags >> 3) & 3 = the data_type LABEL set on
+#                                            the instance: 0 soc, 1 soi, 2 toc, 3 toi (the content is strict and
+#                                            complete whatever the label); the new instance becomes the current one
+#   [9, alts, [[order, mult], ...], label]   new instance read by OrdinalInstance.parse_str from PrefLib text declared
+#                                            with that label (file name extension, DATA TYPE header, parse_str argument)
 #   [1, flags]                               new empty OrdinalInstance() (filled through the public API)
 #   [2, order]                               current.append_order(order)
 #   [3, [order, ...]]                        current.append_order_list(orders as tuples of singleton tuples)
@@ -302,7 +308,7 @@ def _hist_sim(steps):
 
     for stp in steps:
         k = stp[0]
-        if k == 0:
+        if k in (0, 9):
             st = [list(stp[1]), []]
             for o, _ in stp[2]:
                 add(st, o)
@@ -326,6 +332,9 @@ def _hist_sim(steps):
     return calls
 
 
+_LABELS = ["soc", "soi", "toc", "toi"]
+
+
 def _hist_impl(c):
     import numpy as np
     from preflibtools.instances import OrdinalInstance
@@ -347,8 +356,24 @@ def _hist_impl(c):
             if fl & 2 and len(inst.multiplicity) > 1:
                 k0 = next(iter(inst.multiplicity))
                 inst.multiplicity[k0] = inst.multiplicity.pop(k0)
+            inst.data_type = _LABELS[(fl >> 3) & 3]
             insts.append(inst)
             flags_of.append(fl)
+            cur = len(insts) - 1
+        elif k == 9:
+            dt = _LABELS[stp[3] & 3]
+            prof = stp[2]
+            lines = ["# FILE NAME: x." + dt, "# TITLE: t", "# DATA TYPE: " + dt,
+                     "# NUMBER ALTERNATIVES: %d" % len(stp[1]), "# NUMBER VOTERS: %d" % sum(mu for _, mu in prof),
+                     "# NUMBER UNIQUE ORDERS: %d" % len(prof)]
+            for a in stp[1]:
+                lines.append("# ALTERNATIVE NAME %d: Alternative %d" % (a, a))
+            for o, mu in prof:
+                lines.append("%d: %s" % (mu, ",".join(str(a) for a in o)))
+            inst = OrdinalInstance()
+            inst.parse_str("\n".join(lines) + "\n", dt)
+            insts.append(inst)
+            flags_of.append(0)
             cur = len(insts) - 1
         elif k == 1:
             insts.append(OrdinalInstance())
@@ -502,6 +527,8 @@ def _hist_case(rng, i):
     names = list(alts)
     rng.shuffle(names)                                  # alternatives_name not ascending
     fl = rng.choice([0, 1, 2, 3, 3, 4, 5, 6, 7])
+    if rng.random() < 0.3:
+        fl |= rng.randrange(1, 4) << 3                  # label soi / toc / toi on strict complete content
     prof = [[o, rng.choice([1, 1, 2, 5])] for o in orders]
     build = [0, names, prof, fl]
 
@@ -510,8 +537,15 @@ def _hist_case(rng, i):
             return _grow_vote(rng, alts, adj)
         return rand_perm(rng, alts)
 
-    t = i % 7
-    if t == 0:      # the same question twice on one object
+    t = i % 8
+    if t == 7:      # every data_type label on strict complete content, set by hand and declared to parse_str
+        lab = (i // 8) % 4
+        if (i // 32) % 2:
+            build = [9, names, prof, lab]
+        else:
+            build = [0, names, prof, (fl & 7) | (lab << 3)]
+        steps = [build, [5], [5]]
+    elif t == 0:      # the same question twice on one object
         steps = [build, [5], [5]]
     elif t == 1:    # an append in between (the answer may change)
         steps = [build, [5], [2, extra_vote()], [5], [3, [extra_vote(), extra_vote()]], [5]]
@@ -682,8 +716,13 @@ def nontrivial(c, r, m):
 def stats(c, r, m):
     if c["op"] == "c13.hist":
         names = ["twice", "append between", "poisoned tree", "other profile first", "API + maintenance",
-                 "append_order/vote_map + accessors", "direct + maintenance"]
-        out = ["history: %s" % names[c["tags"].get("hist", 0) % 7]]
+                 "append_order/vote_map + accessors", "direct + maintenance", "data_type labels"]
+        out = ["history: %s" % names[c["tags"].get("hist", 0) % 8]]
+        for stp in c["payload"]:
+            if stp[0] == 0:
+                out.append("label %s set by hand" % _LABELS[(stp[3] >> 3) & 3])
+            elif stp[0] == 9:
+                out.append("label %s declared to parse_str" % _LABELS[stp[3] & 3])
         try:
             vs = "".join("T" if x[0] == 1 else "F" for x in r["hist"])
             out.append("history verdicts %s" % ("constant" if len(set(vs)) == 1 else "change along the history"))
@@ -730,7 +769,7 @@ def shrink(c):
         steps = c["payload"]
         cands = []
         for i, stp in enumerate(steps):
-            if stp[0] not in (0, 1, 7):
+            if stp[0] not in (0, 1, 7, 9):
                 cands.append(steps[:i] + steps[i + 1:])
         for i, stp in enumerate(steps):
             if stp[0] == 0:
